@@ -811,3 +811,45 @@ theorem getCols_cell (s : Sheet) (h : WF s) (hc : Consistent 0 s) (c r : Nat) (h
     rfl
 
 end XlModel.Readers
+
+namespace XlModel.Readers
+
+/-! ## GetRows and the row limit -/
+
+theorem rowsBound_eq : Facts.C04.rowsBoundByTotalRows = true := by decide
+
+theorem foldl_rowStep_not_stopped : ∀ (rs : Sheet) (st : RState), st.stopped = false →
+    RowAttrsOK rs → (rs.foldl rowStep st).stopped = false
+  | [], _, h, _ => h
+  | r :: rs, st, h, ha => by
+    have hle : ¬ r.r > Facts.TotalRows := by have := ha.1; omega
+    simp only [List.foldl_cons]
+    apply foldl_rowStep_not_stopped rs _ _ ha.2
+    unfold rowStep
+    simp only [h, Bool.false_eq_true, if_false, hle, decide_false, Bool.and_false]
+    split <;> simp [h]
+
+theorem foldl_rowStep_stopped : ∀ (rs : Sheet) (st : RState),
+    (st.stopped = true ∨ ∃ r ∈ rs, r.r > Facts.TotalRows) → (rs.foldl rowStep st).stopped = true
+  | [], st, h => by
+    cases h with
+    | inl h => exact h
+    | inr h => obtain ⟨_, hm, _⟩ := h; cases hm
+  | r :: rs, st, h => by
+    simp only [List.foldl_cons]
+    apply foldl_rowStep_stopped rs
+    by_cases hs : st.stopped = true
+    · left; unfold rowStep; simp [hs]
+    · have hs' : st.stopped = false := by simpa using hs
+      by_cases hr : r.r > Facts.TotalRows
+      · left; unfold rowStep; simp [hs', hr, rowsBound_eq]
+      · right
+        cases h with
+        | inl h => exact absurd h hs
+        | inr h =>
+          obtain ⟨x, hm, hx⟩ := h
+          cases hm with
+          | head => exact absurd hx hr
+          | tail _ hm' => exact ⟨x, hm', hx⟩
+
+end XlModel.Readers
